@@ -1274,8 +1274,8 @@ func (f *c11Family) genOp(rng *rand.Rand, w c11World) c11Op {
 		op.Ctx = []string{"tx", "prepare", "conn", "txprepare"}[rng.Intn(4)]
 	}
 	f.sprinkleEmb(rng, t, op.Nodes)
-	if op.All && op.AllC.Kind != "" && op.AllC.Style != "scope" && t.hasEmb() && rng.Intn(4) > 0 {
-		op.AllC.Style = "scope" // stay away from the listed finding F35 most of the time
+	if op.All && op.AllC.Kind != "" && op.AllC.Style != "scope" && t.hasEmb() && c11AvoidF35() && rng.Intn(4) > 0 {
+		op.AllC.Style = "scope" // stay away from the listed finding F35 most of the time (unrepaired tree only)
 	}
 	return op
 }
